@@ -286,5 +286,14 @@ def emitted_fields(project, chk, R3="O3", R4="O4"):
         order = got == want_tuple
     chk.check(ok and order, R3, fi.short, show(out)[:80], project.loc(fi.module, fi.node), "'#{:02x}{:02x}{:02x}'.format(r, g, b) in R, G, B order", how="template and operand order",
               message=f"rgb_to_hex does not emit #rrggbb from (r, g, b) in order: {show(out)[:120]}")
-    ranged = "isinstance" in show(ret) and "255" in show(ret)
-    chk.check(ranged, R3, fi.short, "validation", project.loc(fi.module, fi.node), "hex digits are produced only for ints in 0..255", how="all(isinstance(x, int) and 0 <= x <= 255 ...) precedes the formatting", message="rgb_to_hex formats without validating the components")
+    from sa.formula import compare, reference, transform as _tr2
+    from checks.C07 import raise_guards
+    HEXG = "def g(r, g_, b):\n    return not all(isinstance(x, int) and 0 <= x <= 255 for x in (r, g_, b))\n"
+    ranged = False
+    if all(v in env for v in ("r", "g", "b")):
+        memo = {id(env["r"]): (env["r"], ("var", "r")), id(env["g"]): (env["g"], ("var", "g_")), id(env["b"]): (env["b"], ("var", "b"))}
+        absd = _tr2(ret, lambda n: n, memo)
+        refg = reference(HEXG, "g")
+        ranged = any(not compare(gd, refg, Policy()) for gd in raise_guards(absd))
+    chk.check(ranged, R3, fi.short, "validation", project.loc(fi.module, fi.node), "hex digits are produced only for ints in 0..255", how="a raise guard `not all(isinstance(x, int) and 0 <= x <= 255 for x in (r, g, b))` precedes the formatting",
+              message="rgb_to_hex does not reject components that are not ints in 0..255 before formatting them as two hex digits each")
